@@ -133,8 +133,9 @@ def obj_tok(o, kind):
     from cherab.core.atomic import Element
     if kind == 'sym':
         if isinstance(o, Element):
-            return 'S 1 %s %d' % (hexs(o.symbol), o.atomic_number)
-        return 'S 0 %s 0' % hexs(str(o))
+            # last token: distinguishes registry objects that share symbol and Z (hydrogen / protium)
+            return 'S 1 %s %d %d' % (hexs(o.symbol), o.atomic_number, getattr(o, 'mass_number', 0) or 0)
+        return 'S 0 %s 0 0' % hexs(str(o))
     if kind == 'num':
         if isinstance(o, (int, np.integer)) and not isinstance(o, bool):
             return 'I %d' % o
@@ -952,6 +953,10 @@ class History:
                 if dest and gfam not in dest:
                     sym = 'routes-to-%s-file' % GETF[dest[0]][3]
                     break
+            if pyfn == 'update_pec_rates' and mixed_case_classes(op):
+                # one call carrying 'recombination' and 'RECOMBINATION': the data of the upper-case entry is fetched from
+                # the lower-case one (rates[cls] after cls = cls.lower())
+                sym = MIXED_CASE_SYM
         elif not own and status == 'ok':
             sym = 'other-key-changed' if self.allowed(k) != [MISSING] else 'unwritten-key-readable'
         elif status != 'ok':
@@ -959,6 +964,14 @@ class History:
         return dict(signature='C06:%s:%s' % (pyfn, sym), at=at, own=bool(own),
                     description='after %s -> %s: %s(%s) : %s' % (pyfn, status, GETF[gfam][0],
                                                                ', '.join(str(okey(o)) for o in gp), why))
+
+
+MIXED_CASE_SYM = 'mixed-case-class-key-stores-lower-case-entry-data'
+
+
+def mixed_case_classes(op):
+    cl = [p[0][1] for p, _ in op.get('entries', []) if p and p[0][0] == 'C']
+    return any(c != c.lower() and c.lower() in cl for c in cl)
 
 
 def _status(f):
@@ -1238,6 +1251,17 @@ def targeted_histories():
            dict(kind='upd', fam='wavelength', root='A', entries=[([C, ['I', 1]], {})]),
            dict(kind='upd', fam='pecThermalCx', root='A', entries=[([H, ['I', 1], C, ['I', 1], ['T', 3, 2]], mk_rate('pec3', 1.0, (1, 1, 1)))])]
     hs.append(('rejected', rej, [('wavelength', 'A', [C, ['I', 1], ['T', 3, 2]])]))
+    # one update_pec_rates call with both spellings of a class key
+    T3 = ['T', 3, 2]
+    hs.append(('pec-mixed-case-class', [
+        dict(kind='upd', fam='pec', root='A', entries=[([['C', 'recombination'], C, ['I', 1], T3], mk_rate('pec', 1.0, (1, 1))),
+                                                       ([['C', 'RECOMBINATION'], C, ['I', 1], T3], mk_rate('pec', 2.0, (2, 2)))]),
+        dict(kind='upd', fam='pec', root='A', entries=[([['C', 'Excitation'], C, ['I', 1], T3], mk_rate('pec', 3.0, (1, 1))),
+                                                       ([['C', 'excitation'], C, ['I', 2], T3], mk_rate('pec', 4.0, (1, 1)))]),
+        dict(kind='upd', fam='pec', root='A', entries=[([['C', 'excitation'], H, ['I', 1], T3], mk_rate('pec', 5.0, (1, 1))),
+                                                       ([['C', 'excitation'], ['E', 'protium'], ['I', 1], T3], mk_rate('pec', 6.0, (1, 2))),
+                                                       ([['C', 'EXCITATION'], ['E', 'protium'], ['I', 1], T3], mk_rate('pec', 7.0, (2, 1)))])],
+        []))
     return hs
 
 
@@ -1318,7 +1342,7 @@ def run(ctx):
     # generic theory (any tables), then the obligations on the tables generated from the current source, one module each
     # so that a violated table obligation does not hide the others
     cmds, ok_mod = [], {}
-    for mod in ('C06', 'C06Table', 'C06TableAdd', 'C06TableRoot', 'C06TableAll'):
+    for mod in ('C06', 'C06Table', 'C06TableAdd', 'C06TableRoot', 'C06TableAll', 'C06TablePec'):
         ok_mod[mod] = ctx.lean_check(['Cherab.Props.' + mod], 'Cherab/Audit/%s.lean' % mod)
         cmds.append(ctx.checker_cmd)
     ctx.checker_cmd = ' ; '.join(cmds)
@@ -1379,6 +1403,12 @@ def run(ctx):
 
     ctx.extra['seconds']['implementation'] = round(time.time() - t0, 1)
     t0 = time.time()
+    # the table obligation `pec_reads_passed_data` is explained by the finding it predicts, if that finding is listed
+    pec_sig = 'C06:update_pec_rates:' + MIXED_CASE_SYM
+    if not ok_mod['C06TablePec'] and pec_sig in [k['signature'] for k in ctx.known_hits]:
+        for b in ctx.broken:
+            if b['kind'] == 'theorem' and (b['name'].endswith('C06TablePec') or b['name'] == 'pec_reads_passed_data'):
+                b['explained_by_known'] = True
     # K: all histories through the driver in one go
     lines = [l for _, h in runs for l in h.lines]
     enc = encode_stream(ctx, rng)
